@@ -609,7 +609,9 @@ class Exec:
                     base = base.v
                 if isinstance(base, (SymV, StructV)):
                     loc = (base.path, pl[2])
-            return RefV(self.read_place(pl, env, fn), pl[1] if pl[0] == "local" else None, loc)
+            if pl[0] == "deref" and pl[1][0] == "local" and isinstance(env.get(pl[1][1]), RefV) and env[pl[1][1]].slot and env[pl[1][1]].frame is not None:
+                return env[pl[1][1]]        # a reborrow of a reference to some frame's local is that same reference
+            return RefV(self.read_place(pl, env, fn), pl[1] if pl[0] == "local" else None, loc, frame=env.get("~frame") if pl[0] == "local" else None)
         m = re.match(r"^discriminant\((.*)\)$", s)
         if m:
             return self.discriminant(self.read_place(parse_place(m.group(1)), env, fn))
@@ -770,6 +772,8 @@ class Exec:
             env[l] = a
         if len(args) != len(fn.args):
             raise Unsupported("arity of %s" % fn.name)
+        self._frames = getattr(self, "_frames", 0) + 1
+        env["~frame"] = self._frames
         yield from self.block(fn, "bb0", env, path, depth, 0)
 
     def block(self, fn, bb, env, path, depth, steps):
@@ -886,13 +890,27 @@ class Exec:
                 if not nxt.startswith("bb"):
                     continue  # diverging call returned?
                 env2 = dict(env)
+                opath = out.path
                 if out.writes:
                     for idx, newv in out.writes.items():
                         a = args[idx]
                         if isinstance(a, RefV) and a.slot:
-                            env2[a.slot] = newv
+                            if a.frame is None or a.frame == env.get("~frame"):
+                                env2[a.slot] = newv
+                            else:
+                                # the local lives in a frame further up: parked in the path until that frame resumes
+                                opath = opath.store("~frame%d" % a.frame, a.slot, "local", newv)
                         else:
                             raise Unsupported("write-back through a reference that is not a caller local")
+                mine = "~frame%d" % env.get("~frame", 0)
+                parked = [k for k in opath.stores if k[0] == mine]
+                if parked:
+                    st = dict(opath.stores)
+                    for k in parked:
+                        env2[k[1]] = st.pop(k)
+                    opath = Path(opath.pc, opath.events, opath.notes, st)
+                if opath is not out.path:
+                    out = Outcome(out.kind, opath, out.value, out.msg, out.where, None)
                 if dst:
                     self.write_place(parse_place(dst), out.value, env2, fn)
                 yield from self.block(fn, nxt, env2, out.path, depth, steps)
